@@ -172,7 +172,7 @@ impl<T> Deque<T> {
         }
     }
 
-    pub(crate) unsafe fn move_to_back(&mut self, mut node: NonNull<DeqNode<T>>) {
+    pub(crate) unsafe fn move_to_back(&mut self, node: NonNull<DeqNode<T>>) {
         if self.is_tail(node.as_ref()) {
             // Already at the tail. Nothing to do.
             return;
@@ -182,25 +182,27 @@ impl<T> Deque<T> {
             self.advance_cursor();
         }
 
-        let node = node.as_mut(); // this one is ours now, we can create an &mut.
+        // Not creating a mutable (unique!) reference to the node: the entry that owns
+        // this node keeps its own pointer to it, and the list must keep storing a
+        // pointer of the same provenance (not one derived from a temporary `&mut`).
+        let n = node.as_ptr();
 
         // Not creating new mutable (unique!) references overlapping `element`.
-        match node.prev {
-            Some(prev) if node.next.is_some() => (*prev.as_ptr()).next = node.next,
+        match (*n).prev {
+            Some(prev) if (*n).next.is_some() => (*prev.as_ptr()).next = (*n).next,
             Some(..) => (),
             // This node is the head node.
-            None => self.head = node.next,
+            None => self.head = (*n).next,
         };
 
         // This node is not the tail node.
-        if let Some(next) = node.next.take() {
-            (*next.as_ptr()).prev = node.prev;
+        if let Some(next) = (*n).next.take() {
+            (*next.as_ptr()).prev = (*n).prev;
 
-            let mut node = NonNull::from(node);
             match self.tail {
                 // Not creating new mutable (unique!) references overlapping `element`.
                 Some(tail) => {
-                    node.as_mut().prev = Some(tail);
+                    (*n).prev = Some(tail);
                     (*tail.as_ptr()).next = Some(node)
                 }
                 None => unreachable!(),
